@@ -420,6 +420,9 @@ pub struct TimeSyncCheck {
     pub lead_milli: i64,
     pub latency_us: u64,
     pub measure_from_us: u64,
+    /// the expected lead is read off the two frame counters at every tick (lockstep cells always)
+    #[serde(default)]
+    pub lead_from_counters: bool,
 }
 
 #[derive(Serialize, Deserialize, Clone, Debug, PartialEq)]
